@@ -116,6 +116,7 @@ def _snapshot_class_state(ns):
         snap[c] = {
             "cap": d.get("_BUFFER_CAPACITY", _NS),
             "threading": d.get("_threading_support_is_active", _NS),
+            "keys": set(d),      # which class attributes the class itself defines at import time (others are inherited)
         }
     return snap
 
@@ -141,10 +142,16 @@ def world_reset(clear_type_maps=True):
         if "_locks" in d:
             c._locks = {}
             c._cls_lock = simlock.SimRLock()
-        if "_buffer" in d:
-            c._buffer = {}
-            c._CURRENT_BUFFER_SIZE = 0
-            c._buffered_collections = {}
+        # restore exactly the import-time layout: an attribute the class did not define itself at import time is removed
+        # again (it then reads its parent's value, as after a fresh import), one it did define gets a fresh empty value
+        for attr, fresh_value in (("_buffer", dict), ("_CURRENT_BUFFER_SIZE", int), ("_buffered_collections", dict)):
+            if attr in init.get("keys", ()):
+                setattr(c, attr, fresh_value())
+            elif attr in c.__dict__:
+                try:
+                    delattr(c, attr)
+                except AttributeError:
+                    pass
         ctx = d.get("_buffer_context")
         if ctx is not None:
             ctx._count = 0
